@@ -165,14 +165,33 @@ def check_get(ck, get, touching, validator="validate_absolute_path", joiner="get
                 status = "raw"
         return (status, held)
 
+    def test_expr(n):
+        """The test, looking through a named boolean (``missing = self.absolute_path is None``)."""
+        e = n.ast
+        if isinstance(e, ast.Name) and e.id not in aliases:
+            d = rd.unique(n, e.id)
+            if d is not None and d.kind == "assign" and isinstance(d.value, (ast.Compare, ast.UnaryOp, ast.BoolOp)) and not any(isinstance(x, ast.Call) for x in ast.walk(d.value)):
+                return d.value
+        return e
+
     def edge(n, kind, val):
         status, held = val
         if n.kind == "test" and kind in ("true", "false"):
-            t, pol = canon_fact(n.ast, kind == "true")
+            e = test_expr(n)
+            if isinstance(e, ast.BoolOp):
+                if any(q.dotted(x) in aliases for x in ast.walk(e) if isinstance(x, (ast.Name, ast.Attribute))):
+                    raise AnalysisError("get: compound named condition on the validator's result is not understood: %s" % q.unparse(e)[:80])
+                return val
+            t, pol = canon_fact(e, kind == "true")
+            hit = False
             for a in aliases:
-                if (t == a + " is None" and not pol) or (t == a and pol):
-                    if status == "maybe":
-                        status = "ok"
+                if t == a + " is None" or t == a:
+                    hit = True
+                    if (t == a + " is None" and not pol) or (t == a and pol):
+                        if status == "maybe":
+                            status = "ok"
+            if not hit and any(q.dotted(x) in aliases for x in ast.walk(e) if isinstance(x, (ast.Name, ast.Attribute))):
+                raise AnalysisError("get: test on the validator's result in a shape the rule does not understand: %s" % q.unparse(e)[:80])
         return (status, held)
 
     seen = explore(cfg, ("raw", False), transfer, lambda t: False, edge_transfer=edge)
@@ -198,9 +217,13 @@ def check_get(ck, get, touching, validator="validate_absolute_path", joiner="get
         c = n.ast.value
         ck.need(len(c.args) == 2, "get: %s called with unexpected arguments" % validator)
         root = rd.expand(c.args[0], n)
+        if q.dotted(root) != "self.root" and not isinstance(root, ast.Constant) and not (q.dotted(root) or "").startswith("self."):
+            raise AnalysisError("get: cannot establish which root the validator is given (%s)" % q.unparse(root)[:60])
         ck.ob("C26.get-flow", get, c, q.dotted(root) == "self.root", "the validator is given the configured root (self.root)", construct="validator root")
         cand = rd.expand(c.args[1], n)
         ok = self_call_name(cand) == joiner and len(cand.args) == 2
+        if not ok and any(isinstance(x, ast.Call) and q.dotted(x.func) not in ("os.path.join",) for x in ast.walk(cand)):
+            raise AnalysisError("get: the path handed to the validator is computed in a way the rule does not understand (%s)" % q.unparse(cand)[:60])
         ck.ob("C26.get-flow", get, c, ok, "the validator is given the result of %s (normalised join of root and request path)" % joiner, construct="validator candidate")
         if ok:
             ck.ob("C26.get-flow", get, c, q.dotted(cand.args[0]) == "self.root", "%s joins onto the configured root" % joiner, construct="join root")
@@ -220,6 +243,8 @@ def check_joiner(ck, fi):
     for r in rets:
         E = rd.expand(r.ast.value, r) if r.ast.value is not None else None
         ok = isinstance(E, ast.Call) and q.dotted(E.func) in NORMALISERS and len(E.args) == 1
+        if not ok and isinstance(E, ast.Call) and q.dotted(E.func) not in ("os.path.join", "os.path.expanduser", "os.path.expandvars", "urllib.parse.unquote", "str", "os.fspath"):
+            raise AnalysisError("get_absolute_path: returns the result of %s, which the rule cannot classify as normalising or not" % q.unparse(E.func))
         ck.ob("C26.abs-normalised", fi, r.ast, ok, "the returned path is os.path.abspath/realpath/normpath(...) of the join, so no '..' segment survives into the containment test")
         if ok:
             names = {x.id for x in ast.walk(E.args[0]) if isinstance(x, ast.Name)}
@@ -230,53 +255,151 @@ def check_joiner(ck, fi):
 # validate_absolute_path
 
 
-def containment_test(e, X, R):
-    """kind of containment test the atomic condition ``e`` is: ('prefix', plus_sep) | ('common',) | 'weak' | None"""
-    names = {n.id for n in ast.walk(e) if isinstance(n, ast.Name)}
-    if not ({X, R} <= names):
+PARDIRS = ("os.path.pardir", "os.pardir")
+
+
+def is_pardir(e):
+    return q.dotted(e) in PARDIRS or (isinstance(e, ast.Constant) and e.value == "..")
+
+
+class Validator:
+    """Recognisers for validate_absolute_path, relative to its reaching definitions."""
+
+    def __init__(self, fi):
+        self.fi = fi
+        self.cfg = fi.cfg
+        self.rd = Reach(fi)
+        params = [p for p in fi.params() if p != "self"]
+        if len(params) != 2:
+            raise AnalysisError("validate_absolute_path: unexpected signature")
+        self.Rp, self.X = params
+        # names derived from the root only / relpath(path, root) results
+        self.rootvars = {self.Rp}
+        self.relvars = set()
+        changed = True
+        while changed:
+            changed = False
+            for d in self.rd.defs:
+                if d.kind not in ("assign", "aug") or d.value is None or "." in d.path:
+                    continue
+                names = {x.id for x in ast.walk(d.value) if isinstance(x, ast.Name)}
+                v = d.value
+                if isinstance(v, ast.Call) and q.dotted(v.func) == "os.path.relpath" and len(v.args) == 2 and isinstance(v.args[0], ast.Name) and v.args[0].id == self.X and isinstance(v.args[1], ast.Name) and v.args[1].id in self.rootvars:
+                    if d.path not in self.relvars:
+                        self.relvars.add(d.path)
+                        changed = True
+                elif (names & self.rootvars or (d.kind == "aug" and d.path in self.rootvars)) and self.X not in names and not (names & self.relvars) and d.path != self.X and d.path not in self.rootvars:
+                    self.rootvars.add(d.path)
+                    changed = True
+
+    def sep(self, e, node):
+        if is_sep(e):
+            return True
+        if isinstance(e, ast.Name):
+            d = self.rd.unique(node, e.id)
+            return d is not None and d.kind == "assign" and d.value is not None and is_sep(d.value)
+        return False
+
+    def pardir_prefix(self, e, node):
+        """'..' -> 'bare', '..' + sep -> 'sep'"""
+        if is_pardir(e):
+            return "bare"
+        if isinstance(e, ast.Constant) and e.value in ("../", "..\\"):
+            return "sep"
+        if isinstance(e, ast.BinOp) and isinstance(e.op, ast.Add) and is_pardir(e.left) and self.sep(e.right, node):
+            return "sep"
+        if isinstance(e, ast.Name):
+            d = self.rd.unique(node, e.id)
+            if d is not None and d.kind == "assign" and d.value is not None and not isinstance(d.value, ast.Name):
+                return self.pardir_prefix(d.value, d.node)
         return None
-    if isinstance(e, ast.Call) and isinstance(e.func, ast.Attribute) and e.func.attr == "startswith" and len(e.args) == 1 and not (isinstance(e.args[0], ast.Name) and e.args[0].id == R) \
-            and R in {n.id for n in ast.walk(e.args[0]) if isinstance(n, ast.Name)}:
-        return ("prefix-derived", q.unparse(e.args[0]))
-    if isinstance(e, ast.Call) and isinstance(e.func, ast.Attribute) and e.func.attr == "startswith" and len(e.args) == 1 and isinstance(e.args[0], ast.Name) and e.args[0].id == R:
-        v = e.func.value
-        if isinstance(v, ast.Name) and v.id == X:
-            return ("prefix", False)
-        if isinstance(v, ast.BinOp) and isinstance(v.op, ast.Add) and isinstance(v.left, ast.Name) and v.left.id == X and is_sep(v.right):
-            return ("prefix", True)
-        raise AnalysisError("validate_absolute_path: prefix test on an unrecognised string: %s" % q.unparse(e))
-    if isinstance(e, ast.Compare) and len(e.ops) == 1 and isinstance(e.ops[0], ast.Eq):
-        for a, b in ((e.left, e.comparators[0]), (e.comparators[0], e.left)):
-            if isinstance(a, ast.Call) and q.dotted(a.func) == "os.path.commonprefix" and isinstance(b, ast.Name) and b.id == R and len(a.args) == 1 and isinstance(a.args[0], (ast.List, ast.Tuple)) and len(a.args[0].elts) == 2:
-                others = [x for x in a.args[0].elts if not (isinstance(x, ast.Name) and x.id == R)]
-                if len(others) == 1 and ((isinstance(others[0], ast.Name) and others[0].id == X) or (isinstance(others[0], ast.BinOp) and isinstance(others[0].op, ast.Add) and isinstance(others[0].left, ast.Name) and others[0].left.id == X and is_sep(others[0].right))):
-                    return ("prefix", True)  # character-wise common prefix == root  <=>  startswith(root): needs the separator-terminated root
-            if isinstance(a, ast.Call) and q.dotted(a.func) == "os.path.commonpath" and isinstance(b, ast.Name) and b.id == R and len(a.args) == 1 and isinstance(a.args[0], (ast.List, ast.Tuple)) \
-                    and {getattr(x, "id", None) for x in a.args[0].elts} == {X, R}:
-                return ("common",)
-    if isinstance(e, ast.Compare) and any(isinstance(o, (ast.In, ast.NotIn)) for o in e.ops):
-        return "weak"  # substring test: not a prefix test
-    if isinstance(e, ast.Call) and isinstance(e.func, ast.Attribute) and e.func.attr in ("endswith", "find", "count", "index"):
-        return "weak"
-    raise AnalysisError("validate_absolute_path: test relating path and root in an unknown shape: %s" % q.unparse(e))
 
+    def resolved_test(self, n):
+        """The test expression, looking through a boolean local whose operands did not change since."""
+        e = n.ast
+        if isinstance(e, ast.Name):
+            d = self.rd.unique(n, e.id)
+            if d is not None and d.kind == "assign" and d.value is not None and not isinstance(d.value, (ast.Constant, ast.Name)):
+                involved = {x.id for x in ast.walk(d.value) if isinstance(x, ast.Name)}
+                if all(self.rd.IN.get(d.node.id, {}).get(v) == self.rd.IN.get(n.id, {}).get(v) for v in involved):
+                    return d.value, d.node
+        return e, n
 
-def ends_with_sep(e, R, X=None):
-    """True/False: the polarity of atomic test ``e`` under which R ends with the separator; None if unrelated."""
-    if isinstance(e, ast.Call) and isinstance(e.func, ast.Attribute) and e.func.attr == "endswith" and isinstance(e.func.value, ast.Name) and e.func.value.id == R and len(e.args) == 1 and is_sep(e.args[0]):
-        return True
-    if isinstance(e, ast.Compare) and len(e.ops) == 1 and isinstance(e.ops[0], (ast.Eq, ast.NotEq)):
-        for a, b in ((e.left, e.comparators[0]), (e.comparators[0], e.left)):
-            if is_sep(b) and isinstance(a, ast.Subscript) and isinstance(a.value, ast.Name) and a.value.id == R:
-                sl = a.slice
-                last = (isinstance(sl, ast.Slice) and sl.upper is None and sl.step is None and isinstance(sl.lower, ast.UnaryOp) and isinstance(sl.lower.op, ast.USub) and isinstance(sl.lower.operand, ast.Constant) and sl.lower.operand.value == 1) \
-                    or (isinstance(sl, ast.UnaryOp) and isinstance(sl.op, ast.USub) and isinstance(sl.operand, ast.Constant) and sl.operand.value == 1)
-                if last:
-                    return isinstance(e.ops[0], ast.Eq)
-    names = {n.id for n in ast.walk(e) if isinstance(n, ast.Name)}
-    if R in names and X not in names and any(is_sep(x) for x in ast.walk(e)) and not (isinstance(e, ast.Call) and q.call_attr(e) == "startswith"):
-        raise AnalysisError("validate_absolute_path: test on the root and the separator in an unknown shape: %s" % q.unparse(e))
-    return None
+    def classify(self, n):
+        e, at = self.resolved_test(n)
+        names = {x.id for x in ast.walk(e) if isinstance(x, ast.Name)}
+        X = self.X
+        rel = names & self.relvars
+        roots = names & self.rootvars
+        # --- relpath idiom
+        if rel and not roots and X not in names:
+            if isinstance(e, ast.Call) and isinstance(e.func, ast.Attribute) and e.func.attr == "startswith" and isinstance(e.func.value, ast.Name) and e.func.value.id in rel and len(e.args) == 1:
+                k = self.pardir_prefix(e.args[0], at)
+                if k:
+                    return ("rel-prefix", k)
+            if isinstance(e, ast.Compare) and len(e.ops) == 1 and isinstance(e.ops[0], (ast.Eq, ast.NotEq)):
+                for a, b in ((e.left, e.comparators[0]), (e.comparators[0], e.left)):
+                    if isinstance(a, ast.Name) and a.id in rel and is_pardir(b):
+                        return ("rel-eq", isinstance(e.ops[0], ast.Eq))
+            raise AnalysisError("validate_absolute_path: test on the relative path in an unknown shape: %s" % q.unparse(e))
+        # --- separator termination of a root variable
+        if roots and X not in names and not rel:
+            if isinstance(e, ast.Call) and isinstance(e.func, ast.Attribute) and e.func.attr == "endswith" and isinstance(e.func.value, ast.Name) and e.func.value.id in roots and len(e.args) == 1 and self.sep(e.args[0], at):
+                return ("endsep", e.func.value.id, True)
+            if isinstance(e, ast.Compare) and len(e.ops) == 1 and isinstance(e.ops[0], (ast.Eq, ast.NotEq)):
+                for a, b in ((e.left, e.comparators[0]), (e.comparators[0], e.left)):
+                    if self.sep(b, at) and isinstance(a, ast.Subscript) and isinstance(a.value, ast.Name) and a.value.id in roots:
+                        sl = a.slice
+                        last = (isinstance(sl, ast.Slice) and sl.upper is None and sl.step is None and isinstance(sl.lower, ast.UnaryOp) and isinstance(sl.lower.op, ast.USub) and isinstance(sl.lower.operand, ast.Constant) and sl.lower.operand.value == 1) \
+                            or (isinstance(sl, ast.UnaryOp) and isinstance(sl.op, ast.USub) and isinstance(sl.operand, ast.Constant) and sl.operand.value == 1)
+                        if last:
+                            return ("endsep", a.value.id, isinstance(e.ops[0], ast.Eq))
+            if any(self.sep(x, at) for x in ast.walk(e) if isinstance(x, (ast.Name, ast.Attribute, ast.Constant))):
+                raise AnalysisError("validate_absolute_path: test on the root and the separator in an unknown shape: %s" % q.unparse(e))
+            return None
+        if not (roots and X in names):
+            return None
+        # --- tests relating the path and the root
+        if isinstance(e, ast.Call) and isinstance(e.func, ast.Attribute) and e.func.attr == "startswith" and len(e.args) == 1:
+            v, arg = e.func.value, e.args[0]
+            lhs = None
+            if isinstance(v, ast.Name) and v.id == X:
+                lhs = False
+            elif isinstance(v, ast.BinOp) and isinstance(v.op, ast.Add) and isinstance(v.left, ast.Name) and v.left.id == X and self.sep(v.right, at):
+                lhs = True
+            if lhs is not None and isinstance(arg, ast.Name) and arg.id in self.rootvars:
+                return ("prefix", arg.id, lhs)
+            if lhs is not None and isinstance(arg, ast.Tuple):
+                return "weak"  # several admissible prefixes
+            if lhs is not None:
+                return ("prefix-derived", q.unparse(arg))
+            raise AnalysisError("validate_absolute_path: prefix test on an unrecognised string: %s" % q.unparse(e))
+        if isinstance(e, ast.Compare) and len(e.ops) == 1 and isinstance(e.ops[0], ast.Eq):
+            for a, b in ((e.left, e.comparators[0]), (e.comparators[0], e.left)):
+                if isinstance(a, ast.Call) and q.dotted(a.func) in ("os.path.commonprefix", "os.path.commonpath") and isinstance(b, ast.Name) and b.id in self.rootvars and len(a.args) == 1 \
+                        and isinstance(a.args[0], (ast.List, ast.Tuple)) and len(a.args[0].elts) == 2:
+                    others = [x for x in a.args[0].elts if not (isinstance(x, ast.Name) and x.id == b.id)]
+                    if len(others) == 1:
+                        o = others[0]
+                        plain = isinstance(o, ast.Name) and o.id == X
+                        plus = isinstance(o, ast.BinOp) and isinstance(o.op, ast.Add) and isinstance(o.left, ast.Name) and o.left.id == X and self.sep(o.right, at)
+                        if q.dotted(a.func) == "os.path.commonpath" and plain:
+                            return ("common", b.id)
+                        if q.dotted(a.func) == "os.path.commonprefix" and (plain or plus):
+                            return ("prefix", b.id, plus)  # character-wise: needs the separator-terminated root
+        if isinstance(e, ast.Compare) and any(isinstance(o, (ast.In, ast.NotIn)) for o in e.ops):
+            return "weak"  # substring test: not a prefix test
+        if isinstance(e, ast.Call) and isinstance(e.func, ast.Attribute) and e.func.attr in ("endswith", "find", "count", "index"):
+            return "weak"
+        raise AnalysisError("validate_absolute_path: test relating path and root in an unknown shape: %s" % q.unparse(e))
+
+    def sep_append(self, v, node):
+        """``W + sep`` / ``os.path.join(W, '')`` with W a root variable -> W"""
+        if isinstance(v, ast.BinOp) and isinstance(v.op, ast.Add) and isinstance(v.left, ast.Name) and v.left.id in self.rootvars and self.sep(v.right, node):
+            return v.left.id
+        if isinstance(v, ast.Call) and q.dotted(v.func) == "os.path.join" and len(v.args) == 2 and isinstance(v.args[0], ast.Name) and v.args[0].id in self.rootvars and isinstance(v.args[1], ast.Constant) and v.args[1].value == "":
+            return v.args[0].id
+        return None
 
 
 def config_extension(v, X):
@@ -290,126 +413,181 @@ def config_extension(v, X):
     return False
 
 
+def helper_summary(ck, hfi, pname):
+    """For a private helper of the class called with the contained path as ``pname``:
+    (filesystem primitives all inspect that parameter, normal return implies isfile(param), raise statements)."""
+    cfg = hfi.cfg
+    from ..x_secflow import edge_dominates
+
+    prims_ok = True
+    for x in own_nodes(hfi.node):
+        if is_fs_prim(x):
+            prims_ok = prims_ok and len(x.args) >= 1 and isinstance(x.args[0], ast.Name) and x.args[0].id == pname
+        if self_call_name(x) is not None and self_call_name(x) not in ("redirect",) and resolve_method(ck.repo, self_call_name(x)) is not None and any(is_fs_prim(y) for y in own_nodes(resolve_method(ck.repo, self_call_name(x)).node)):
+            raise AnalysisError("%s: nested filesystem helper calls are not followed" % hfi.qualname)
+    reassigned = any(isinstance(x, (ast.Assign, ast.AugAssign, ast.AnnAssign)) and pname in q.assigned_paths(x) for x in own_nodes(hfi.node))
+    ftests = [t for t in cfg.stmt_nodes(lambda t: t.kind == "test") if isinstance(t.ast, ast.Call) and q.dotted(t.ast.func) == "os.path.isfile" and len(t.ast.args) == 1 and isinstance(t.ast.args[0], ast.Name) and t.ast.args[0].id == pname]
+    gate = bool(cfg.pred[cfg.exit.id]) and not reassigned and any(edge_dominates(cfg, t, "true", cfg.exit) for t in ftests)
+    raises = [x for x in own_nodes(hfi.node) if isinstance(x, ast.Raise)]
+    return prims_ok, gate, raises
+
+
 def check_validator(ck, fi):
-    cfg = fi.cfg
-    params = [p for p in fi.params() if p != "self"]
-    ck.need(len(params) == 2, "validate_absolute_path: unexpected signature")
-    R, X = params
-    tests = []
-    rd = Reach(fi)
+    V = Validator(fi)
+    cfg, rd, X = V.cfg, V.rd, V.X
+    kinds = {}
     for n in cfg.stmt_nodes(lambda n: n.kind == "test"):
-        e = n.ast
-        if isinstance(e, ast.Name):
-            # a boolean local holding the test, with path and root unchanged since it was computed
-            d = rd.unique(n, e.id)
-            if d is not None and d.kind == "assign" and d.value is not None and all(rd.IN.get(d.node.id, {}).get(v) == rd.IN.get(n.id, {}).get(v) for v in (X, R)):
-                e = d.value
-        k = containment_test(e, X, R)
-        if k is not None and k != "weak":
-            tests.append((n, k))
-    tids = {n.id: k for n, k in tests}
+        k = V.classify(n)
+        if k is not None:
+            kinds[n.id] = k
+    contain_tests = [(cfg.nodes[i], k) for i, k in kinds.items() if k != "weak" and k[0] in ("prefix", "common", "prefix-derived", "rel-prefix", "rel-eq")]
 
     def transfer(n, val):
-        contained, rootsep = val
+        contained, seps, relA, relB = val
         if n.kind == "stmt" and isinstance(n.ast, (ast.Assign, ast.AugAssign, ast.AnnAssign, ast.Delete)):
             ap = q.assigned_paths(n.ast)
+            v = getattr(n.ast, "value", None)
             if X in ap:
-                v = getattr(n.ast, "value", None)
                 if not (isinstance(n.ast, ast.Assign) and config_extension(v, X)):
-                    contained = False
-            if R in ap:
-                v = getattr(n.ast, "value", None)
-                if isinstance(n.ast, ast.AugAssign) and isinstance(n.ast.op, ast.Add) and is_sep(v):
-                    rootsep = True
-                elif isinstance(n.ast, ast.Assign) and isinstance(v, ast.BinOp) and isinstance(v.op, ast.Add) and isinstance(v.left, ast.Name) and v.left.id == R and is_sep(v.right):
-                    rootsep = True
-                elif isinstance(n.ast, ast.Assign) and isinstance(v, ast.Call) and q.dotted(v.func) == "os.path.join" and len(v.args) == 2 and isinstance(v.args[0], ast.Name) and v.args[0].id == R and isinstance(v.args[1], ast.Constant) and v.args[1].value == "":
-                    rootsep = True
+                    contained, relA, relB = False, False, False
+            for r_ in ap & V.rootvars:
+                src = None
+                if isinstance(n.ast, ast.AugAssign) and isinstance(n.ast.op, ast.Add) and V.sep(v, n):
+                    src = r_
+                elif isinstance(n.ast, (ast.Assign, ast.AnnAssign)) and v is not None:
+                    src = V.sep_append(v, n)
+                if src is not None:
+                    seps = seps | {r_}
+                elif isinstance(n.ast, (ast.Assign, ast.AnnAssign)) and isinstance(v, ast.Name) and v.id in V.rootvars:
+                    seps = (seps | {r_}) if v.id in seps else (seps - {r_})
                 else:
-                    rootsep = False
+                    seps = seps - {r_}
+                if any(kk != "weak" and kk[0] in ("prefix", "common") and kk[1] == r_ for kk in kinds.values()):
+                    contained = False  # the root compared against is being changed
+            if ap & V.relvars:
+                relA = relB = False
+                if contained and not any(kk != "weak" and kk[0] in ("prefix", "common") for kk in kinds.values()):
                     contained = False
         elif n.kind in ("for", "with") and n.ast is not None:
             from ..x_secflow import node_defs
 
             for path, *_ in node_defs(n):
                 if path == X:
+                    contained, relA, relB = False, False, False
+                if path in V.rootvars:
+                    seps = seps - {path}
                     contained = False
-                if path == R:
-                    rootsep, contained = False, False
-        return (contained, rootsep)
+        return (contained, seps, relA, relB)
 
     def edge(n, kind, val):
-        contained, rootsep = val
-        if n.kind == "test" and kind in ("true", "false"):
-            e = n.ast
-            if n.id in tids and kind == "true":
-                k = tids[n.id]
-                if k[0] == "common" or (k[0] == "prefix" and rootsep):
-                    contained = True
-            else:
-                pol = ends_with_sep(e, R, X)
-                if pol is not None and (kind == "true") == pol:
-                    rootsep = True
-        return (contained, rootsep)
+        contained, seps, relA, relB = val
+        k = kinds.get(n.id)
+        if n.kind == "test" and kind in ("true", "false") and k is not None and k != "weak":
+            if k[0] == "prefix" and kind == "true" and k[1] in seps:
+                contained = True
+            elif k[0] == "common" and kind == "true":
+                contained = True
+            elif k[0] == "endsep" and (kind == "true") == k[2]:
+                seps = seps | {k[1]}
+            elif k[0] == "rel-prefix" and kind == "false":
+                relA = True
+                if k[1] == "bare":
+                    relB = True
+            elif k[0] == "rel-eq" and (kind == "true") != k[1]:
+                relB = True
+            if relA and relB:
+                contained = True
+        return (contained, seps, relA, relB)
 
-    seen = explore(cfg, (False, False), transfer, lambda t: False, edge_transfer=edge)
-    ck.ob("C26.contained", fi, fi.node, len(tests) >= 1, "validate_absolute_path contains a prefix (or commonpath) test of the path against the root", construct="containment test present")
-    # root separator at the prefix test
-    for n, k in tests:
+    seen = explore(cfg, (False, frozenset(), False, False), transfer, lambda t: False, edge_transfer=edge)
+    ck.ob("C26.contained", fi, fi.node, len(contain_tests) >= 1, "validate_absolute_path tests the path against the root (prefix with separator-terminated root, commonpath, or relpath not leading upwards)", construct="containment test present")
+    has_rel_prefix = any(k[0] == "rel-prefix" for _n, k in contain_tests)
+    has_rel_eq = any(k[0] == "rel-eq" for _n, k in contain_tests) or any(k[0] == "rel-prefix" and k[1] == "bare" for _n, k in contain_tests)
+    if has_rel_prefix:
+        ck.ob("C26.contained", fi, fi.node, has_rel_eq, "a relpath-based test also rejects the relative path that is exactly '..' (the parent of the root), not only those starting with '../'", construct="relpath: bare parent")
+    for n, k in contain_tests:
         if k[0] == "prefix-derived":
             ck.ob("C26.root-sep", fi, n.ast, False, "the prefix that is tested is the separator-terminated root itself, not an expression derived from it (%s) whose trailing separator is not established" % k[1])
         if k[0] == "prefix":
             states = seen.get(n.id, set())
-            ok = bool(states) and all(rs for _f, (_c, rs) in states)
+            ok = bool(states) and all(k[1] in st[1] for _f, st in states)
             ck.ob("C26.root-sep", fi, n.ast, ok, "at the prefix test the root ends with the path separator on every path (otherwise a sibling directory sharing the root's name prefix matches)")
-        # failing edge: must end in HTTPError(403|404)
-        fails = [cfg.nodes[s] for s, kind in cfg.succ[n.id] if kind == "false"]
-        ck.need(fails, "containment test without a failing edge")
+        # the rejecting edge must end in HTTPError(403|404)
+        if k[0] in ("prefix", "common", "prefix-derived"):
+            bad_edge = "false"
+        elif k[0] == "rel-prefix":
+            bad_edge = "true"
+        else:
+            bad_edge = "true" if k[1] else "false"
+        fails = [cfg.nodes[s_] for s_, kind in cfg.succ[n.id] if kind == bad_edge]
         for f in fails:
+            # with `a or b` the rejecting edge of one operand may lead to the other operand's test: follow to the raise
             reach = _reach_from(cfg, f.id)
             raises = [cfg.nodes[i] for i in reach if cfg.nodes[i].kind == "stmt" and isinstance(cfg.nodes[i].ast, ast.Raise)]
             ok = cfg.exit.id not in reach and raises and all(_http_status(r.ast) in (403, 404) for r in raises)
             ck.ob("C26.fail-status", fi, n.ast, bool(ok), "a path outside the root ends in HTTPError(403|404): no return, no other exception", construct="failing edge of " + q.unparse(n.ast)[:80])
     # governed sites
     g = 0
+    helper_gates = []
+    helper_raises = []
     for n in cfg.stmt_nodes():
         sites = []
         for c in node_calls(n):
+            m = self_call_name(c)
             if is_fs_prim(c):
                 sites.append((c, "filesystem predicate %s" % q.dotted(c.func)))
-            elif self_call_name(c) == "redirect":
+            elif m == "redirect":
                 sites.append((c, "redirect"))
+            elif m is not None and ck.repo.has_func(W, SF + "." + m):
+                hfi = ck.repo.func(W, SF + "." + m)
+                if any(is_fs_prim(y) for y in own_nodes(hfi.node)):
+                    hp = [p_ for p_ in hfi.params() if p_ not in ("self", "cls")]
+                    idx = [i for i, a in enumerate(c.args) if isinstance(a, ast.Name) and a.id == X]
+                    if len(idx) != 1 or idx[0] >= len(hp) or c.keywords:
+                        raise AnalysisError("validate_absolute_path: call of the filesystem helper %s with arguments the rule cannot map" % m)
+                    prims_ok, gate, raises = helper_summary(ck, ck.use(hfi), hp[idx[0]])
+                    sites.append((c, "filesystem helper %s()" % m))
+                    ck.ob("C26.contained", hfi, hfi.node, prims_ok, "the helper's filesystem predicates inspect the path it is given", construct="helper operands")
+                    if gate:
+                        helper_gates.append(n)
+                    helper_raises.extend((hfi, r_) for r_ in raises)
         if n.kind == "stmt" and isinstance(n.ast, ast.Return) and n.ast.value is not None and not (isinstance(n.ast.value, ast.Constant) and n.ast.value.value is None):
             sites.append((n.ast, "return of a path"))
         for node, what in sites:
             g += 1
             states = seen.get(n.id, set())
-            ok = bool(states) and all(c for _f, (c, _rs) in states)
+            ok = bool(states) and all(st[0] for _f, st in states)
             ck.ob("C26.contained", fi, node, ok, "%s happens only after the containment test succeeded for the current value of the path (existence of files outside the root is not revealed)" % what)
             if isinstance(node, ast.Call) and is_fs_prim(node):
                 okarg = len(node.args) >= 1 and isinstance(node.args[0], ast.Name) and node.args[0].id == X
                 ck.ob("C26.contained", fi, node, okarg, "the filesystem predicate inspects the contained path itself", construct="operand of " + q.unparse(node)[:80])
             if isinstance(node, ast.Return):
-                okret = isinstance(node.value, ast.Name) and node.value.id == X
-                ck.ob("C26.contained", fi, node, okret, "the returned path is the contained path", construct="returned value")
-    ck.floor("C26.contained", g, 4, "governed sites in validate_absolute_path")
+                if not isinstance(node.value, ast.Name):
+                    raise AnalysisError("validate_absolute_path: returns an expression rather than the path variable: %s" % q.unparse(node.value)[:60])
+                ck.ob("C26.contained", fi, node, node.value.id == X, "the returned path is the contained path", construct="returned value")
+    ck.floor("C26.contained", g, 3, "governed sites in validate_absolute_path")
     # a path is returned only for a regular file (a directory or a missing file must end in 403/404, not in a 500 from open/stat)
     from ..x_secflow import edge_dominates
 
     ftests = [t for t in cfg.stmt_nodes(lambda t: t.kind == "test") if isinstance(t.ast, ast.Call) and q.dotted(t.ast.func) == "os.path.isfile" and len(t.ast.args) == 1 and isinstance(t.ast.args[0], ast.Name) and t.ast.args[0].id == X]
+    dom = cfg.dominators()
     for n in cfg.stmt_nodes(lambda n: n.kind == "stmt" and isinstance(n.ast, ast.Return) and n.ast.value is not None and not (isinstance(n.ast.value, ast.Constant) and n.ast.value.value is None)):
         back = _reach_to(cfg, n.id)
         ok = False
-        for t in ftests:
-            if not edge_dominates(cfg, t, "true", n):
-                continue
+        gates = [(t, [sid for sid, kind in cfg.succ[t.id] if kind == "true"]) for t in ftests if edge_dominates(cfg, t, "true", n)]
+        gates += [(h, [sid for sid, kind in cfg.succ[h.id] if kind != "exc"]) for h in helper_gates if h.id in dom[n.id] and h.id != n.id]
+        for t, starts in gates:
             fwd = set()
-            for sid, kind in cfg.succ[t.id]:
-                if kind == "true":
-                    fwd |= _reach_from(cfg, sid)
+            for sid in starts:
+                fwd |= _reach_from(cfg, sid)
             stale = [i for i in fwd & back if cfg.nodes[i].kind == "stmt" and isinstance(cfg.nodes[i].ast, ast.stmt) and X in q.assigned_paths(cfg.nodes[i].ast)]
             if not stale:
                 ok = True
+        if not ok and not ftests and not helper_gates:
+            # nothing that looks like the test: is it hidden in something the rule does not read?
+            from ..x_secflow import absent_or_unknown
+
+            absent_or_unknown(rd, n, lambda E: any(isinstance(x, ast.Call) and q.dotted(x.func) in ("os.path.isfile", "os.stat", "stat.S_ISREG") for x in ast.walk(E)) or any(isinstance(x, ast.Call) and self_call_name(x) not in (None, "redirect") and any(isinstance(a, ast.Name) and a.id == X for a in x.args) for x in ast.walk(E)), (), "the regular-file test")
         ck.ob("C26.regular-file", fi, n.ast, ok, "a path is returned only on the success edge of os.path.isfile(<the contained path>) - directories and missing files end in 403/404")
     for t in ftests:
         for f in [cfg.nodes[sid] for sid, kind in cfg.succ[t.id] if kind == "false"]:
@@ -419,6 +597,8 @@ def check_validator(ck, fi):
     for x in own_nodes(fi.node):
         if isinstance(x, ast.Raise):
             ck.ob("C26.fail-status", fi, x, _http_status(x) in (403, 404), "validate_absolute_path rejects with HTTPError(403|404) only")
+    for hfi, x in helper_raises:
+        ck.ob("C26.fail-status", hfi, x, _http_status(x) in (403, 404), "a helper of validate_absolute_path rejects with HTTPError(403|404) only")
 
 
 def _reach_from(cfg, nid):
@@ -496,6 +676,9 @@ def check_fs_args(ck, attr, skip=("validate_absolute_path",)):
             mname = fi.qualname.split(".", 1)[1]
             for cm, cfi in methods.items():
                 for x in own_nodes(cfi.node):
+                    if self_call_name(x) == mname and cm in skip:
+                        kinds.add("validator")  # called while validating: governed by C26.contained (helper summary)
+                        continue
                     if self_call_name(x) == mname:
                         a = x.args[idx] if idx < len(x.args) else q.kwarg(x, e.id)
                         if a is None:
@@ -504,7 +687,7 @@ def check_fs_args(ck, attr, skip=("validate_absolute_path",)):
                             kinds.add(provenance(cfi, _resolve_local(cfi, x, a), depth + 1))
             if not kinds:
                 return "entry"
-            for k in ("raw", "unknown", "entry", "app", "validated"):
+            for k in ("raw", "unknown", "entry", "app", "validator", "validated"):
                 if k in kinds:
                     return k
         if isinstance(e, ast.Call) and self_call_name(e) == "get_absolute_path":
@@ -526,7 +709,7 @@ def check_fs_args(ck, attr, skip=("validate_absolute_path",)):
                 k = provenance(fi, _resolve_local(fi, x, x.args[0]))
                 if k in ("unknown", "entry") and not (k == "entry" and mname in ("get_content", "get_content_version", "_get_cached_version")):
                     raise AnalysisError("%s: cannot establish where the argument of %s comes from" % (fi.qualname, q.unparse(x)))
-                ck.ob("C26.fs-args", fi, x, k in ("validated", "app", "entry"), "%s operates on the validated path (%s) or an application-side path - weakest provenance over all in-class callers: %s" % (q.dotted(x.func), attr, k))
+                ck.ob("C26.fs-args", fi, x, k in ("validated", "app", "entry", "validator"), "%s operates on the validated path (%s) or an application-side path - weakest provenance over all in-class callers: %s" % (q.dotted(x.func), attr, k))
     ck.floor("C26.fs-args", n, 2, "filesystem primitives in StaticFileHandler")
 
 
